@@ -75,7 +75,18 @@ def main():
         except AnalysisError as e:
             print(f"ANALYSIS-ERROR setup {e}")
             return 2
-        print("selfcheck ok:", prog.stats(), "python", sys.version.split()[0])
+        # the abstract domains on tiny synthetic sources: equal spellings must agree, broken variants must be seen
+        from sa import engine_tests
+        try:
+            n_cases, fails = engine_tests.run(a.root)
+        except Exception as e:  # noqa
+            print(f"ANALYSIS-ERROR setup engine self-test crashed: {type(e).__name__}: {e}")
+            return 2
+        for f_ in fails:
+            print("ANALYSIS-ERROR setup engine self-test:", f_)
+        if fails:
+            return 2
+        print("selfcheck ok:", prog.stats(), "python", sys.version.split()[0], f"engine self-tests: {n_cases} cases agree")
         return 0
     if a.replay:
         rp = json.loads(open(a.replay).read())
